@@ -11,7 +11,7 @@
 (* violation here means the oracle is wrong - it is a machinery error,     *)
 (* never a finding about the library.                                      *)
 (***************************************************************************)
-EXTENDS ContextOps
+EXTENDS ContextOps, Documents
 
 CONSTANT Shapes          \* set of <<n, m>>
 ShapesQuick    == {<<1, 1>>, <<1, 2>>, <<2, 1>>, <<2, 2>>, <<1, 3>>, <<3, 1>>, <<2, 3>>, <<3, 2>>, <<3, 3>>}
@@ -143,6 +143,13 @@ ThGenerators ==
             /\ Len(s) = Cardinality(G)
             /\ \A g \in G : Len(s[1]) <= Cardinality(g)
 
+Perms(n) == {f \in [1..n -> 1..n] : \A a, b \in 1..n : a # b => f[a] # f[b]}
+(* C11: a raw load re-derives the canonical order from ANY permutation of the stored lattice list *)
+ThRawPermutation ==
+    LET lst == LatList0(L)
+    IN  /\ Canon(lst) = lst
+        /\ L.N <= 5 => \A sigma \in Perms(L.N) : Canon(PermuteList(lst, sigma)) = lst
+
 (* C15: transformation laws *)
 Swap(S) == {<<c[2], c[1]>> : c \in S}
 ThTranspose == ConceptsLit(Transpose(T)) = Swap(CL)
@@ -150,7 +157,6 @@ ThDuplicate ==
     /\ \A i \in 1..T.n : {c[2] : c \in ConceptsLit(DupRow(T, i))} = {c[2] : c \in CL}
     /\ \A j \in 1..T.m : {c[1] : c \in ConceptsLit(DupCol(T, j))} = {c[1] : c \in CL}
     /\ {c[1] : c \in ConceptsLit(AddFullCol(T))} = {c[1] : c \in CL}
-Perms(n) == {f \in [1..n -> 1..n] : \A a, b \in 1..n : a # b => f[a] # f[b]}
 ThPermute ==
     /\ \A pi \in Perms(T.n) :
           ConceptsLit(PermuteRows(T, pi)) = {<<{i \in 1..T.n : pi[i] \in c[1]}, c[2]>> : c \in CL}
